@@ -78,7 +78,12 @@ RestartMonotone(r, d, w) ==
   /\ (r.term = w.voteterm /\ w.votewho # 0) => r.vote = w.votewho
   /\ (r.term = d.term /\ d.vote # 0) => r.vote = d.vote
   /\ LastIdx(r) >= w.acked
+  /\ \A i \in (r.ss + 1)..w.acked : Has(r, i)      \* acknowledged, not covered by the snapshot: still there
   /\ \A i \in (Max2(Max2(r.ss, r.base), d.base) + 1)..w.acked : TermAt(r, i) = TermAt(d, i)
+
+\* C08 (compaction part): the log a replica restarts from continues its recorded snapshot - log
+\* compaction never removed an entry that the recorded snapshot does not cover
+LogContinuesSnapshot(r) == Len(r.log) > 0 => r.base <= r.ss
 
 \* equality of two images where both have entries (compaction may have removed a prefix, a
 \* locally generated snapshot may have raised the snapshot record)
